@@ -646,3 +646,77 @@ Theorem C11_lits_exact : forall h w region st ans,
    <-> rules_lits (List.cons (List.cons (Z.of_nat h) (List.cons (Z.of_nat w) nil)) (List.cons region nil)) ans = true).
 Proof. exact lits_exact. Qed.
 Print Assumptions C11_lits_exact.
+
+(* the remaining modules' solve_reports corollaries (Puzzle/<P>Wf.v; VarGroupsWf.v for the C07 helpers) *)
+From Cspuz Require Import Puzzle.MasyuWf.
+Theorem C11_masyu_solve_reports : forall oracle, oracle_sound_on oracle -> oracle_complete_on oracle ->
+  forall h w circles st, 
+  solve_masyu_model (List.cons (List.cons (Z.of_nat h) (List.cons (Z.of_nat w) nil)) (List.cons circles nil)) = Ok st ->
+  solve_reports oracle st (seq 0 (n_lattice_edges h w)) (rules_masyu (List.cons (List.cons (Z.of_nat h) (List.cons (Z.of_nat w) nil)) (List.cons circles nil))).
+Proof. exact masyu_solve_reports. Qed.
+Print Assumptions C11_masyu_solve_reports.
+
+From Cspuz Require Import Puzzle.GeradewegWf.
+Theorem C11_geradeweg_solve_reports : forall oracle, oracle_sound_on oracle -> oracle_complete_on oracle ->
+  forall h w clues st, 
+  solve_geradeweg_model (List.cons (List.cons (Z.of_nat h) (List.cons (Z.of_nat w) nil)) (List.cons clues nil)) = Ok st ->
+  solve_reports oracle st (seq 0 (h * (w - 1) + (h - 1) * w)) (rules_geradeweg (List.cons (List.cons (Z.of_nat h) (List.cons (Z.of_nat w) nil)) (List.cons clues nil))).
+Proof. exact geradeweg_solve_reports. Qed.
+Print Assumptions C11_geradeweg_solve_reports.
+
+From Cspuz Require Import Puzzle.SimpleloopWf.
+Theorem C11_simpleloop_solve_reports : forall oracle, oracle_sound_on oracle -> oracle_complete_on oracle ->
+  forall h w py px blocked st, 
+  solve_simpleloop_model (List.cons (List.cons (Z.of_nat h) (List.cons (Z.of_nat w) (List.cons (Z.of_nat py) (List.cons (Z.of_nat px) nil)))) (List.cons blocked nil)) = Ok st ->
+  solve_reports oracle st (seq 0 (h * (w - 1) + (h - 1) * w)) (rules_simpleloop (List.cons (List.cons (Z.of_nat h) (List.cons (Z.of_nat w) (List.cons (Z.of_nat py) (List.cons (Z.of_nat px) nil)))) (List.cons blocked nil))).
+Proof. exact simpleloop_solve_reports. Qed.
+Print Assumptions C11_simpleloop_solve_reports.
+
+From Cspuz Require Import Puzzle.YajilinWf.
+Theorem C11_yajilin_solve_reports : forall oracle, oracle_sound_on oracle -> oracle_complete_on oracle ->
+  forall h w kind num st, 
+  solve_yajilin_model (List.cons (List.cons (Z.of_nat h) (List.cons (Z.of_nat w) nil)) (List.cons kind (List.cons num nil))) = Ok st ->
+  solve_reports oracle st (seq 0 (n_lattice_edges h w) ++ seq (n_lattice_edges h w + 3 * (h * w)) (h * w)) (rules_yajilin (List.cons (List.cons (Z.of_nat h) (List.cons (Z.of_nat w) nil)) (List.cons kind (List.cons num nil)))).
+Proof. exact yajilin_solve_reports. Qed.
+Print Assumptions C11_yajilin_solve_reports.
+
+From Cspuz Require Import Puzzle.CastleWallWf.
+Theorem C11_castle_wall_solve_reports : forall oracle, oracle_sound_on oracle -> oracle_complete_on oracle ->
+  forall h w kind num side st, cw_wf h w kind side = true ->
+  solve_castle_wall_model (List.cons (List.cons (Z.of_nat h) (List.cons (Z.of_nat w) nil)) (List.cons kind (List.cons num (List.cons side nil)))) = Ok st ->
+  solve_reports oracle st (seq 0 (h * (w - 1) + (h - 1) * w)) (rules_castle_wall (List.cons (List.cons (Z.of_nat h) (List.cons (Z.of_nat w) nil)) (List.cons kind (List.cons num (List.cons side nil))))).
+Proof. exact castle_wall_solve_reports. Qed.
+Print Assumptions C11_castle_wall_solve_reports.
+
+From Cspuz Require Import Puzzle.YinyangWf.
+Theorem C11_yinyang_solve_reports : forall oracle, oracle_sound_on oracle -> oracle_complete_on oracle ->
+  forall h w grid st, 
+  solve_yinyang_model (List.cons (List.cons (Z.of_nat h) (List.cons (Z.of_nat w) nil)) (List.cons grid nil)) = Ok st ->
+  solve_reports oracle st (seq 0 (h * w)) (rules_yinyang (List.cons (List.cons (Z.of_nat h) (List.cons (Z.of_nat w) nil)) (List.cons grid nil))).
+Proof. exact yinyang_solve_reports. Qed.
+Print Assumptions C11_yinyang_solve_reports.
+
+From Cspuz Require Import Puzzle.CompassWf.
+Theorem C11_compass_solve_reports : forall oracle, oracle_sound_on oracle -> oracle_complete_on oracle ->
+  forall h w cps st, 
+  solve_compass_model (List.cons (List.cons (Z.of_nat h) (List.cons (Z.of_nat w) nil)) (List.cons cps nil)) = Ok st ->
+  solve_reports oracle st (key_ids st) (rules_compass (List.cons (List.cons (Z.of_nat h) (List.cons (Z.of_nat w) nil)) (List.cons cps nil))).
+Proof. exact compass_solve_reports. Qed.
+Print Assumptions C11_compass_solve_reports.
+
+From Cspuz Require Import Puzzle.FillominoWf.
+Theorem C11_fillomino_solve_reports : forall oracle, oracle_sound_on oracle -> oracle_complete_on oracle ->
+  forall h w given st, 
+  solve_fillomino_model (List.cons (List.cons (Z.of_nat h) (List.cons (Z.of_nat w) nil)) (List.cons given nil)) = Ok st ->
+  solve_reports oracle st (seq 0 (h * w)) (rules_fillomino (List.cons (List.cons (Z.of_nat h) (List.cons (Z.of_nat w) nil)) (List.cons given nil))).
+Proof. exact fillomino_solve_reports. Qed.
+Print Assumptions C11_fillomino_solve_reports.
+
+From Cspuz Require Import Puzzle.FivecellsWf.
+Theorem C11_fivecells_solve_reports : forall oracle, oracle_sound_on oracle -> oracle_complete_on oracle ->
+  forall h w grid st, 
+  solve_fivecells_model (List.cons (List.cons (Z.of_nat h) (List.cons (Z.of_nat w) nil)) (List.cons grid nil)) = Ok st ->
+  solve_reports oracle st (key_ids st) (rules_fivecells (List.cons (List.cons (Z.of_nat h) (List.cons (Z.of_nat w) nil)) (List.cons grid nil))).
+Proof. exact fivecells_solve_reports. Qed.
+Print Assumptions C11_fivecells_solve_reports.
+
